@@ -156,7 +156,9 @@ func VerifC03_Claim() {
 	amount := sdk.NewCoins(sdk.Coin{Denom: denom, Amount: amt})
 	ts := uint64(verifChoice("ts", 2)) * 1700000000
 	id := hID(1)
-	h := e.putHTLC(id, state, sh.transfer, sh.dir, amount, ts, uint64(hHeight)+10, state == types.Open)
+	// the claim arrives well before the expiration height, or in the very last block in which the contract is open
+	expiry := uint64(hHeight) + []uint64{10, 1}[verifChoice("lastOpenBlock", 2)]
+	h := e.putHTLC(id, state, sh.transfer, sh.dir, amount, ts, expiry, state == types.Open)
 	// invariants tying the record to escrow and counters (H5/H6) for an open contract
 	escrow := verifIntIn("escrow", big.NewInt(0), verifPow2(66))
 	e.bank.fund(vModuleAddr(types.ModuleName), denom, escrow)
